@@ -201,6 +201,36 @@ def check(rep, F, tier, replay=None):
                 rep.violation("SIB-dedup", "%s" % T, "%s::deduplicated_view de-duplicates with %s but deduplicated_clone with %s: the hashed / set-form list and the emitted witness list can differ in which elements they keep (e.g. two datums equal as values but with different preserved bytes)" % (T, sorted(H.short(x) for x in prim["deduplicated_view"]) or "nothing", sorted(H.short(x) for x in prim["deduplicated_clone"]) or "nothing"), {})
             elif not all("BTreeSet" in x for x in prim["deduplicated_view"]):
                 rep.violation("SIB-dedup", "%s|unordered" % T, "%s de-duplicates with %s instead of an ordered-set insert" % (T, sorted(prim["deduplicated_view"])), {})
+    # LV-order: canonical key order of the language views
+    import hirq as H_
+    rep.rule("LV-order", "Costmdls::language_views_encoding sorts the language keys with a comparator in which every comparison is ascending (left parameter on the left) - first the encoded key length, then the key itself: the ledger hashes the language views as a canonically ordered map (shorter key first, then bytewise)")
+    fid_ = find_fn(rep, F, "Costmdls::language_views_encoding")
+    if fid_ and fid_ in F.hir:
+        comps = []
+        for m_ in H_.walk(F.hir[fid_]["body"]):
+            if m_[0] == "mcall" and m_[2] in ("sort_by", "sort_unstable_by") and m_[5] and H_.is_node(m_[5][0]) and m_[5][0][0] == "closure":
+                comps.append(m_[5][0])
+        if len(comps) != 1:
+            rep.lost("language_views_encoding: expected one comparator closure, found %d" % len(comps))
+        else:
+            cl_ = comps[0]
+            ps_ = [H_.pat_bindings(p_) for p_ in cl_[3]]
+            if len(ps_) != 2 or len(ps_[0]) != 1 or len(ps_[1]) != 1:
+                rep.lost("language_views_encoding: comparator parameters not understood")
+            else:
+                p1_, p2_ = ps_[0][0], ps_[1][0]
+
+                def used_(e_):
+                    return {x_[2][1] for x_ in H_.walk(e_) if x_[0] == "path" and isinstance(x_[2], list) and x_[2][0] == "local" and x_[2][1] in (p1_, p2_)}
+                cmps_ = [x_ for x_ in H_.walk(cl_[4]) if x_[0] == "mcall" and x_[2] in ("cmp", "partial_cmp") and x_[5]]
+                rep.inst("LV-order")
+                if len(cmps_) < 2:
+                    rep.violation("LV-order", "comparisons|%d" % len(cmps_), "the language-view comparator makes %d comparison(s); canonical order needs the encoded length first and the key as tie-break (PlutusV1's key is 2 bytes, V2 / V3 are 1 byte)" % len(cmps_), {})
+                for x_ in cmps_:
+                    l_, r_ = used_(x_[4]), used_(x_[5][0])
+                    if l_ != {p1_} or r_ != {p2_}:
+                        what_ = "length" if any(c_[0] == "call" for c_ in H_.walk(x_[4])) else "key"
+                        rep.violation("LV-order", "descending|%s" % what_, "the language-view comparator compares the %s with the operands swapped (%s against %s): keys of equal length come out in descending order, so a transaction using PlutusV2 and PlutusV3 together gets language views `{02:.., 01:..}` and a script-data hash the ledger does not derive" % (what_, sorted(l_), sorted(r_)), {})
     return rep.finish(
         EXPLANATION,
         ["PlutusWitnesses::collect de-duplicates with ordered sets (C18 DEDUP rule)", "language views encoding follows the ledger (not checked: a frozen byte fragment would be brittle)"],
